@@ -6,6 +6,43 @@ import re
 from extract import WORKSPACE_CRATES
 
 
+_REVIEWED = None
+
+
+def _reviewed_fns():
+    global _REVIEWED
+    if _REVIEWED is None:
+        try:
+            _REVIEWED = json.load(open(os.path.join(os.path.dirname(os.path.abspath(__file__)), "reviewed_fns.json")))
+        except Exception:
+            _REVIEWED = {}
+    return _REVIEWED
+
+
+def _private_renames(texts):
+    """{new path: reviewed path} for non-exported functions that disappeared from the reviewed tree while exactly one new non-exported
+    function with the same signature appeared under the same parent (module or impl): a rename.  Anything less clear is left alone
+    (the rules then fail closed on the missing anchor)."""
+    rev = _reviewed_fns()
+    if not rev:
+        return {}
+    now = {}
+    for d in texts.values():
+        for f in d.get("fns", []):
+            if "{closure" not in f["path"]:
+                now[f["path"]] = {"sig": f.get("sig"), "exported": bool(f.get("exported"))}
+    gone = [p for p, m in rev.items() if p not in now and not m["exported"]]
+    new = [p for p, m in now.items() if p not in rev and not m["exported"]]
+    out = {}
+    for g in gone:
+        parent = g.rsplit("::", 1)[0]
+        cands = [n for n in new if n.rsplit("::", 1)[0] == parent and now[n]["sig"] == rev[g]["sig"]]
+        rivals = [g2 for g2 in gone if g2 != g and g2.rsplit("::", 1)[0] == parent and rev[g2]["sig"] == rev[g]["sig"]]
+        if len(cands) == 1 and not rivals:
+            out[cands[0]] = g
+    return out
+
+
 class Facts:
     def __init__(self, facts_dir, crates=None):
         self.dir = facts_dir
@@ -19,10 +56,21 @@ class Facts:
         self.impls = []
         self.consts = {}
         self.crate_attrs = {}
+        texts = {}
         for c in (crates or WORKSPACE_CRATES):
-            p = os.path.join(facts_dir, c + ".json")
-            with open(p) as fh:
-                d = json.load(fh)
+            with open(os.path.join(facts_dir, c + ".json")) as fh:
+                texts[c] = fh.read()
+        parsed = {c: json.loads(t) for c, t in texts.items()}
+        self.renamed = _private_renames(parsed)
+        for c in (crates or WORKSPACE_CRATES):
+            d = parsed[c]
+            if self.renamed and any(new_ in texts[c] for new_ in self.renamed):
+                t = texts[c]
+                for new_, old_ in self.renamed.items():
+                    # a private function that was only renamed is known to the rules by its reviewed name (qualified paths are
+                    # strings everywhere in the facts: definitions, callees, closures `path::{closure#n}`)
+                    t = re.sub(r'(?<![\w:])%s(?![\w])' % re.escape(new_), lambda m_, o=old_: o, t)
+                d = json.loads(t)
             self.crates[c] = d
             self.crate_attrs[c] = d["ast"].get("crate_attrs", [])
             for b in d["bodies"]:
